@@ -480,7 +480,10 @@ def interpret(events):
                 if "__all__" in members and e["cond"] in ("if", "except"):
                     continue
                 exports = list(e["names"])
+                prev_all = members.get("__all__")
                 members["__all__"] = {"op": "bind", "name": "__all__", "kind": "attribute", "lineno": e["lineno"], "endlineno": e["lineno"], "guard": e["guard"], "labels": {"module-attribute"}, "doc": e.get("doc"), "is_all": True}
+                if prev_all and not e.get("doc") and (prev_all.get("doc") or prev_all.get("doc_any")):
+                    members["__all__"]["doc_any"] = True  # (the docstring of the assignment it replaces is forwarded, like for any other attribute: accepted)
             continue
         n = e["name"]
         if e.get("instance") and n in members and "property" in members[n].get("labels", ()):
